@@ -35,10 +35,52 @@ func genPattern(r *prng.R) string {
 	return strings.Join(parts, "/")
 }
 
+// caseVariant changes the letter case of ONE literal piece (a host label or a constant path segment): the
+// trie and the builder's per-URL table are case-sensitive, so the result is a DIFFERENT endpoint / URL.
+func caseVariant(r *prng.R, u string) string {
+	parts := strings.Split(u, "/")
+	var cand [][2]int // (part index, label index or -1)
+	for i, s := range parts {
+		if i == 0 {
+			for k, l := range strings.Split(s, ".") {
+				if l != "" && l != "*" && !strings.HasPrefix(l, "{") && strings.ToUpper(l) != strings.ToLower(l) {
+					cand = append(cand, [2]int{0, k})
+				}
+			}
+		} else if s != "" && s != "*" && !strings.HasPrefix(s, "{") && strings.ToUpper(s) != strings.ToLower(s) {
+			cand = append(cand, [2]int{i, -1})
+		}
+	}
+	if len(cand) == 0 {
+		return u
+	}
+	flip := func(x string) string {
+		switch {
+		case x != strings.ToLower(x):
+			return strings.ToLower(x) // already has capitals: back to lower case
+		case r.Bool():
+			return strings.ToUpper(x)
+		default:
+			return strings.ToUpper(x[:1]) + x[1:]
+		}
+	}
+	c := prng.Pick(r, cand)
+	if c[1] < 0 {
+		parts[c[0]] = flip(parts[c[0]])
+	} else {
+		hs := strings.Split(parts[0], ".")
+		hs[c[1]] = flip(hs[c[1]])
+		parts[0] = strings.Join(hs, ".")
+	}
+	return strings.Join(parts, "/")
+}
+
 // derive an overlapping pattern from an existing one
 func derivePattern(r *prng.R, p string) string {
 	parts := strings.Split(p, "/")
-	switch r.Intn(8) {
+	switch r.Intn(9) {
+	case 7: // the same pattern in another letter case (a different endpoint)
+		return caseVariant(r, p)
 	case 0: // other + /*
 		return strings.TrimSuffix(p, "/*") + "/*"
 	case 1: // other + one segment
@@ -113,7 +155,9 @@ func deriveURL(r *prng.R, pats []string) string {
 	}
 	u := instantiate(r, prng.Pick(r, pats), r.Chance(15))
 	parts := strings.Split(u, "/")
-	switch r.Intn(12) {
+	switch r.Intn(13) {
+	case 12: // another letter case of one literal piece
+		return caseVariant(r, strings.Join(parts, "/"))
 	case 0: // truncation by one segment
 		if len(parts) > 1 {
 			parts = parts[:len(parts)-1]
@@ -272,6 +316,41 @@ func genPolicyCase(r *prng.R, id string, allOrders bool) proto.Case {
 	return proto.Case{ID: id, Ops: ops}
 }
 
+// Two or three endpoints whose URLs differ ONLY in letter case (host and/or constants next to parameters),
+// with the same or different methods, every declaration order, requests in each spelling.
+func genCaseVariantCase(r *prng.R, id string) proto.Case {
+	base := prng.Pick(r, []string{"api.com/reports/{id}", "api.com/reports", "a.com/users/{id}/posts",
+		"api.a.com/x/y", "a.com/x/*", "a.com/{p}/items", "b.com/v1/reports/{id}/rows/{q}"})
+	pats := []string{base}
+	n := r.Range(2, 3)
+	for len(pats) < n {
+		v := caseVariant(r, prng.Pick(r, pats))
+		pats = append(pats, v) // may repeat a spelling: then it is a duplicated declaration
+	}
+	sameMethod := r.Bool()
+	var ops []string
+	for i, p := range pats {
+		m := "GET"
+		if !sameMethod {
+			m = methods[i%len(methods)]
+		}
+		ops = append(ops, fmt.Sprintf("ep %s %s r=e%dr0:%d:1 d=%s", m, proto.Enc(p), i, i+1, genDiags(r, fmt.Sprintf("e%d", i))))
+	}
+	var reqs []string
+	for _, p := range pats {
+		u := instantiate(r, p, false)
+		for _, m := range []string{"GET", "POST"} {
+			reqs = append(reqs, fmt.Sprintf("req %s %s", m, proto.Enc(u)))
+		}
+		reqs = append(reqs, fmt.Sprintf("req GET %s", proto.Enc(caseVariant(r, u))))
+	}
+	for _, o := range allPerms(len(pats)) {
+		ops = append(ops, "build perm="+permStr(o))
+		ops = append(ops, reqs...)
+	}
+	return proto.Case{ID: id, Ops: ops}
+}
+
 // ---- L1 cases ---------------------------------------------------------------------------------
 
 func genTrieCase(r *prng.R, id string) proto.Case {
@@ -379,6 +458,8 @@ func gen(r *prng.R, f proto.Flags, emit func(proto.Case)) {
 	for k := 0; k < n; k++ {
 		rr := r.Fork()
 		switch {
+		case k%25 == 7:
+			emit(genCaseVariantCase(rr, fmt.Sprintf("c%d", k)))
 		case k%3 == 0:
 			emit(genTrieCase(rr, fmt.Sprintf("t%d", k)))
 		default:
